@@ -58,6 +58,13 @@ Proof.
   intros c Hc. cbn beta in Hc. destruct (cf_expr c); cbn [cexpr_Bal]; [exact I | apply Bal_balanced, Hc | apply Bal_balanced, Hc].
 Qed.
 
+(** the user's types and where-predicates are printed from an AST: always well-bracketed *)
+Theorem C16_printed_types_well_bracketed : forall t, balanced (r_ty t) = true.
+Proof. exact r_ty_balanced. Qed.
+
+Theorem C16_printed_predicates_well_bracketed : forall p, balanced (r_wpred p) = true.
+Proof. exact r_wpred_balanced. Qed.
+
 (** the hypotheses are met by an ordinary key, and violated by an ill-bracketed one (which no attribute can contain) *)
 Example C16_key_instance :
   let k := dollar_to_placeholder (q "$ % ( 2 + 2 )") in
@@ -73,3 +80,5 @@ Print Assumptions C16_shape.
 Print Assumptions C16_field_operand_is_one_group.
 Print Assumptions C16_key_substitution_well_bracketed.
 Print Assumptions C16_comparison_bodies_well_bracketed.
+Print Assumptions C16_printed_types_well_bracketed.
+Print Assumptions C16_printed_predicates_well_bracketed.
